@@ -676,7 +676,7 @@ fn c09(ctx: &Ctx, knobs: &GenKnobs, calls: &[CallRec], exchanges: &[Exchange]) {
                 let sp = ex.safe_params.clone().unwrap_or_default();
                 for a in meta.args[..pos].iter().filter(|a| a.declared_safe()) {
                     // untouched by any fault?
-                    if ex.req_fired.iter().any(|f| f.detail.contains(&a.name)) {
+                    if ex.req_fired.iter().any(|f| f.detail.contains(&a.name) || (a.kind == PKind::Body && f.expect != Expect::Transparent && !is_param_fault(f.kind))) {
                         continue;
                     }
                     let Some(arg) = arg_of(call, meta, &a.name) else { continue };
